@@ -1,13 +1,14 @@
-\* every batch of 1..3 utterances (feature length 1..3, reference none/0..2, alignment present or
-\* not), sort on/off, every legal row order; windows with left, right in 0..2, reversed or not
+\* utterances WITHOUT FRAMES in the batch: every batch of 1..3 utterances (feature length 0..3, reference
+\* none/0..2, alignment present or not) that holds at least one utterance of length 0 - including the batches
+\* made of such utterances only -, sort on/off, every legal row order; windows with left, right in 0..2
 INIT Init
 NEXT Next
 CONSTANTS
   MaxItems = 3
-  MinT = 1
+  MinT = 0
   MaxT = 3
   MaxR = 2
-  Kinds <- AllKinds
+  Kinds <- FrameKinds
   MaxCtx = 2
 INVARIANT IdsStay
 INVARIANT OneEntryPerUtterance
